@@ -13,8 +13,11 @@ def run(c):
 # Kani-using checks share one target dir: run those sequentially, the rest in parallel
 sys.path.insert(0, VERIF)
 from vlib import props
-kani_checks = [c for c in m["checks"] if props.PROPS[c["property_id"]].get("kani")]
-other = [c for c in m["checks"] if not props.PROPS[c["property_id"]].get("kani")]
+def uses_kani(pid):
+    P = props.PROPS[pid]
+    return bool(P.get("kani")) or (tier != "quick" and bool(P.get("kani_thorough")))
+kani_checks = [c for c in m["checks"] if uses_kani(c["property_id"])]
+other = [c for c in m["checks"] if not uses_kani(c["property_id"])]
 res = []
 with ThreadPoolExecutor(max_workers=6) as ex:
     fut = ex.map(run, other)
